@@ -438,6 +438,10 @@ func (s *ReceiveStream) handleResetStreamFrame(frame *wire.ResetStreamFrame, now
 	s.mutex.Unlock()
 
 	if completed {
+		// The stream might have been cancelled locally before a RESET_STREAM_AT frame with
+		// a reliable size beyond the read position arrived: return the unread bytes.
+		// Calling Abandon multiple times is a no-op.
+		s.flowController.Abandon()
 		s.sender.onStreamCompleted(s.streamID)
 	}
 	return err
